@@ -208,30 +208,40 @@ var c17DeltaTok = func(tok string) bool {
 	return len(tok) >= 2 && (tok[0] == '+' || tok[0] == '-') && tok[len(tok)-1] == '%'
 }
 
+// c17AddConfig adds one configuration to the collection the way its mode says
+// and returns what addResult reads from its results, for the model.
+func c17AddConfig(c *benchstat.Collection, cf c17Config, split []string) (hx.Sx, error) {
+	rs, rerr := c17Results(cf)
+	if rerr != nil {
+		return hx.L(), fmt.Errorf("reader: %v", rerr)
+	}
+	switch cf.Mode {
+	case "text":
+		c.AddConfig(cf.Name, []byte(cf.Text))
+	case "file":
+		if e := c.AddFile(cf.Name, strings.NewReader(cf.Text)); e != nil {
+			return hx.L(), e
+		}
+	default:
+		c.AddResults(cf.Name, rs)
+	}
+	var rsx []hx.Sx
+	for _, r := range rs {
+		rsx = append(rsx, c17ResultSx(split, r))
+	}
+	return hx.L(hx.S(cf.Name), hx.List(rsx)), nil
+}
+
 func c17One(o *hx.Out, in c17Input, tags ...string) (err error) {
 	c := &benchstat.Collection{Alpha: in.Alpha, AddGeoMean: in.GeoMean, SplitBy: in.SplitBy,
 		DeltaTest: c17Test(in.Test), Order: c17Order(in.Order)}
 	var cfgSx []hx.Sx
 	for _, cf := range in.Configs {
-		rs, rerr := c17Results(cf)
-		if rerr != nil {
-			return fmt.Errorf("reader: %v", rerr)
+		sx, aerr := c17AddConfig(c, cf, in.SplitBy)
+		if aerr != nil {
+			return aerr
 		}
-		switch cf.Mode {
-		case "text":
-			c.AddConfig(cf.Name, []byte(cf.Text))
-		case "file":
-			if e := c.AddFile(cf.Name, strings.NewReader(cf.Text)); e != nil {
-				return e
-			}
-		default:
-			c.AddResults(cf.Name, rs)
-		}
-		var rsx []hx.Sx
-		for _, r := range rs {
-			rsx = append(rsx, c17ResultSx(in.SplitBy, r))
-		}
-		cfgSx = append(cfgSx, hx.L(hx.S(cf.Name), hx.List(rsx)))
+		cfgSx = append(cfgSx, sx)
 	}
 	var tables []*benchstat.Table
 	panicked := false
@@ -255,162 +265,18 @@ func c17One(o *hx.Out, in c17Input, tags ...string) (err error) {
 		return nil
 	}
 
-	// oracle: the test in force on the two Metrics of every compared row
-	test := c17Test(in.Test)
-	if test == nil {
-		test = benchstat.UTest
-	}
-	var ptab []hx.Sx
-	nshown, ntilde, nrows, nerr := 0, 0, 0, 0
-	for _, t := range tables {
-		for _, row := range t.Rows {
-			nrows++
-			if len(t.Configs) != 2 || row.Benchmark == "[Geo mean]" || len(row.Metrics) != 2 {
-				continue
-			}
-			p, e := test(row.Metrics[0], row.Metrics[1])
-			ptab = append(ptab, hx.L(c17F64s(row.Metrics[0].RValues), c17F64s(row.Metrics[1].RValues), hx.F64(p), c17ErrSx(e)))
-			if e != nil {
-				nerr++
-			} else {
-				eff := in.Alpha
-				if eff == 0 {
-					eff = 0.05
-				}
-				switch {
-				case p == eff:
-					o.Count("row_p_equals_alpha")
-				case p < eff && eff-p < 0.0005:
-					o.Count("row_p_within_0.0005_below_alpha")
-				case p > eff && p-eff < 0.0005:
-					o.Count("row_p_within_0.0005_above_alpha")
-				}
-			}
-			if row.Delta == "~" {
-				ntilde++
-			} else {
-				nshown++
-			}
-		}
-	}
-	for _, t := range tables {
-		if len(t.Rows) > 12 && in.Order != "nil" {
-			o.Count("sorted_table_rows>12")
-			seenK, seenN := map[float64]bool{}, map[string]bool{}
-			tieK, tieN := false, false
-			for _, row := range t.Rows {
-				k := math.Abs(row.PctDelta) * float64(row.Change)
-				if seenK[k] {
-					tieK = true
-				}
-				if seenN[row.Benchmark] {
-					tieN = true
-				}
-				seenK[k], seenN[row.Benchmark] = true, true
-			}
-			if tieK && (in.Order == "delta" || in.Order == "rdelta" || in.Order == "rrdelta") {
-				o.Count("sorted_table_rows>12_tied_delta_keys")
-			}
-			if tieN && (in.Order == "name" || in.Order == "rname" || in.Order == "rrname") {
-				o.Count("sorted_table_rows>12_tied_names")
-			}
-		}
-	}
-	// oracle: math.Log / math.Exp on the arguments stats.GeoMean needs
-	var logtab, exptab []hx.Sx
-	if in.GeoMean {
-		seenL, seenE := map[uint64]bool{}, map[uint64]bool{}
-		for _, unit := range c.Units {
-			for _, cfg := range c.Configs {
-				m, i, ok := 0.0, 0, true
-				for _, g := range c.Groups {
-					for _, b := range c.Benchmarks[g] {
-						mt := c.Metrics[benchstat.Key{Config: cfg, Group: g, Benchmark: b, Unit: unit}]
-						if mt == nil || mt.Mean == 0 || !ok {
-							continue
-						}
-						x := mt.Mean
-						if x <= 0 {
-							ok = false
-							continue
-						}
-						lx := math.Log(x)
-						if !seenL[math.Float64bits(x)] {
-							seenL[math.Float64bits(x)] = true
-							logtab = append(logtab, hx.L(hx.F64(x), hx.F64(lx)))
-						}
-						m += (lx - m) / float64(i+1)
-						i++
-					}
-				}
-				if ok && i > 0 && !seenE[math.Float64bits(m)] {
-					seenE[math.Float64bits(m)] = true
-					exptab = append(exptab, hx.L(hx.F64(m), hx.F64(math.Exp(m))))
-				}
-			}
-		}
-	}
-
+	orc, rs := c17Oracles(o, in, c, tables)
+	nshown, ntilde, nrows, nerr := rs.nshown, rs.ntilde, rs.nrows, rs.nerr
+	c17SortCounts(o, in, tables)
 	// observed collection state and tables
-	var bsx []hx.Sx
-	for _, g := range c.Groups {
-		bsx = append(bsx, hx.L(hx.S(g), hx.SList(c.Benchmarks[g])))
-	}
-	collSx := hx.L(hx.SList(c.Configs), hx.SList(c.Groups), hx.SList(c.Units), hx.List(bsx), hx.I(len(c.Metrics)))
-	var tsx []hx.Sx
-	for _, t := range tables {
-		var rows []hx.Sx
-		for _, row := range t.Rows {
-			var ms []hx.Sx
-			for _, m := range row.Metrics {
-				ms = append(ms, c17MetricsSx(m))
-			}
-			rows = append(rows, hx.L(hx.S(row.Benchmark), hx.S(row.Group), hx.List(ms), hx.F64(row.PctDelta),
-				hx.S(row.Delta), hx.S(row.Note), hx.I(row.Change)))
-		}
-		tsx = append(tsx, hx.L(hx.S(t.Metric), hx.Bool(t.OldNewDelta), hx.SList(t.Configs), hx.SList(t.Groups), hx.List(rows)))
-	}
+	collSx := c17CollSx(c)
+	tsx := c17TablesSx(tables)
+	textOK, textLines := c17TextSx(tables)
+	csvOK, csvLines := c17CSVSx(tables, in.NoRange)
+	fmtSx := hx.L(hx.Bool(textOK), textLines, hx.Bool(csvOK), csvLines)
 
-	// FormatText parsed back loosely: per non-blank line the first token and the
-	// delta-looking token; only meaningful when no label is empty
-	textOK := true
-	for _, t := range tables {
-		for _, row := range t.Rows {
-			if row.Benchmark == "" {
-				textOK = false
-			}
-		}
-	}
-	var tb bytes.Buffer
-	benchstat.FormatText(&tb, tables)
-	var textLines []hx.Sx
-	for _, line := range strings.Split(tb.String(), "\n") {
-		f := strings.Fields(line)
-		if len(f) == 0 {
-			continue
-		}
-		d := ""
-		for _, tok := range f[1:] {
-			if c17DeltaTok(tok) {
-				d = tok
-			}
-		}
-		textLines = append(textLines, hx.L(hx.S(f[0]), hx.S(d)))
-	}
-	// FormatCSV parsed back: first cell and the delta cell by position
-	var cb bytes.Buffer
-	benchstat.FormatCSV(&cb, tables, in.NoRange)
-	cr := csv.NewReader(&cb)
-	cr.FieldsPerRecord = -1
-	recs, cerr := cr.ReadAll()
-	var csvLines []hx.Sx
-	for _, rec := range recs {
-		csvLines = append(csvLines, hx.SList(rec))
-	}
-	fmtSx := hx.L(hx.Bool(textOK), hx.List(textLines), hx.Bool(cerr == nil), hx.List(csvLines))
-
-	obs := hx.L(hx.I(0), collSx, hx.List(tsx), fmtSx)
-	coq := hx.L(opts, hx.List(cfgSx), hx.L(hx.List(ptab), hx.List(logtab), hx.List(exptab)), obs)
+	obs := hx.L(hx.I(0), collSx, tsx, fmtSx)
+	coq := hx.L(opts, hx.List(cfgSx), orc, obs)
 
 	o.Count(fmt.Sprintf("configs=%d", len(in.Configs)))
 	o.Count(fmt.Sprintf("tables=%d", min(len(tables), 6)))
@@ -450,6 +316,182 @@ func c17One(o *hx.Out, in c17Input, tags ...string) (err error) {
 	return nil
 }
 
+// ---------- observation helpers (shared by single reports and histories) ----------
+
+type c17RowStats struct{ nshown, ntilde, nrows, nerr int }
+
+// c17Oracles records the DeltaTest in force on the two Metrics of every
+// compared row, and math.Log / math.Exp on the arguments stats.GeoMean needs.
+func c17Oracles(o *hx.Out, in c17Input, c *benchstat.Collection, tables []*benchstat.Table) (hx.Sx, c17RowStats) {
+	test := c17Test(in.Test)
+	if test == nil {
+		test = benchstat.UTest
+	}
+	var ptab []hx.Sx
+	nshown, ntilde, nrows, nerr := 0, 0, 0, 0
+	for _, t := range tables {
+		for _, row := range t.Rows {
+			nrows++
+			if len(t.Configs) != 2 || row.Benchmark == "[Geo mean]" || len(row.Metrics) != 2 {
+				continue
+			}
+			p, e := test(row.Metrics[0], row.Metrics[1])
+			ptab = append(ptab, hx.L(c17F64s(row.Metrics[0].RValues), c17F64s(row.Metrics[1].RValues), hx.F64(p), c17ErrSx(e)))
+			if e != nil {
+				nerr++
+			} else {
+				eff := in.Alpha
+				if eff == 0 {
+					eff = 0.05
+				}
+				switch {
+				case p == eff:
+					o.Count("row_p_equals_alpha")
+				case p < eff && eff-p < 0.0005:
+					o.Count("row_p_within_0.0005_below_alpha")
+				case p > eff && p-eff < 0.0005:
+					o.Count("row_p_within_0.0005_above_alpha")
+				}
+			}
+			if row.Delta == "~" {
+				ntilde++
+			} else {
+				nshown++
+			}
+		}
+	}
+	// oracle: math.Log / math.Exp on the arguments stats.GeoMean needs
+	var logtab, exptab []hx.Sx
+	if in.GeoMean {
+		seenL, seenE := map[uint64]bool{}, map[uint64]bool{}
+		for _, unit := range c.Units {
+			for _, cfg := range c.Configs {
+				m, i, ok := 0.0, 0, true
+				for _, g := range c.Groups {
+					for _, b := range c.Benchmarks[g] {
+						mt := c.Metrics[benchstat.Key{Config: cfg, Group: g, Benchmark: b, Unit: unit}]
+						if mt == nil || mt.Mean == 0 || !ok {
+							continue
+						}
+						x := mt.Mean
+						if x <= 0 {
+							ok = false
+							continue
+						}
+						lx := math.Log(x)
+						if !seenL[math.Float64bits(x)] {
+							seenL[math.Float64bits(x)] = true
+							logtab = append(logtab, hx.L(hx.F64(x), hx.F64(lx)))
+						}
+						m += (lx - m) / float64(i+1)
+						i++
+					}
+				}
+				if ok && i > 0 && !seenE[math.Float64bits(m)] {
+					seenE[math.Float64bits(m)] = true
+					exptab = append(exptab, hx.L(hx.F64(m), hx.F64(math.Exp(m))))
+				}
+			}
+		}
+	}
+	return hx.L(hx.List(ptab), hx.List(logtab), hx.List(exptab)), c17RowStats{nshown, ntilde, nrows, nerr}
+}
+
+func c17SortCounts(o *hx.Out, in c17Input, tables []*benchstat.Table) {
+	for _, t := range tables {
+		if len(t.Rows) > 12 && in.Order != "nil" {
+			o.Count("sorted_table_rows>12")
+			seenK, seenN := map[float64]bool{}, map[string]bool{}
+			tieK, tieN := false, false
+			for _, row := range t.Rows {
+				k := math.Abs(row.PctDelta) * float64(row.Change)
+				if seenK[k] {
+					tieK = true
+				}
+				if seenN[row.Benchmark] {
+					tieN = true
+				}
+				seenK[k], seenN[row.Benchmark] = true, true
+			}
+			if tieK && (in.Order == "delta" || in.Order == "rdelta" || in.Order == "rrdelta") {
+				o.Count("sorted_table_rows>12_tied_delta_keys")
+			}
+			if tieN && (in.Order == "name" || in.Order == "rname" || in.Order == "rrname") {
+				o.Count("sorted_table_rows>12_tied_names")
+			}
+		}
+	}
+}
+
+func c17CollSx(c *benchstat.Collection) hx.Sx {
+	var bsx []hx.Sx
+	for _, g := range c.Groups {
+		bsx = append(bsx, hx.L(hx.S(g), hx.SList(c.Benchmarks[g])))
+	}
+	return hx.L(hx.SList(c.Configs), hx.SList(c.Groups), hx.SList(c.Units), hx.List(bsx), hx.I(len(c.Metrics)))
+}
+
+func c17TablesSx(tables []*benchstat.Table) hx.Sx {
+	var tsx []hx.Sx
+	for _, t := range tables {
+		var rows []hx.Sx
+		for _, row := range t.Rows {
+			var ms []hx.Sx
+			for _, m := range row.Metrics {
+				ms = append(ms, c17MetricsSx(m))
+			}
+			rows = append(rows, hx.L(hx.S(row.Benchmark), hx.S(row.Group), hx.List(ms), hx.F64(row.PctDelta),
+				hx.S(row.Delta), hx.S(row.Note), hx.I(row.Change)))
+		}
+		tsx = append(tsx, hx.L(hx.S(t.Metric), hx.Bool(t.OldNewDelta), hx.SList(t.Configs), hx.SList(t.Groups), hx.List(rows)))
+	}
+	return hx.List(tsx)
+}
+
+// FormatText parsed back loosely: per non-blank line the first token and the
+// delta-looking token; only meaningful when no label is empty
+func c17TextSx(tables []*benchstat.Table) (bool, hx.Sx) {
+	textOK := true
+	for _, t := range tables {
+		for _, row := range t.Rows {
+			if row.Benchmark == "" {
+				textOK = false
+			}
+		}
+	}
+	var tb bytes.Buffer
+	benchstat.FormatText(&tb, tables)
+	var textLines []hx.Sx
+	for _, line := range strings.Split(tb.String(), "\n") {
+		f := strings.Fields(line)
+		if len(f) == 0 {
+			continue
+		}
+		d := ""
+		for _, tok := range f[1:] {
+			if c17DeltaTok(tok) {
+				d = tok
+			}
+		}
+		textLines = append(textLines, hx.L(hx.S(f[0]), hx.S(d)))
+	}
+	return textOK, hx.List(textLines)
+}
+
+// FormatCSV parsed back: first cell and the delta cell by position
+func c17CSVSx(tables []*benchstat.Table, norange bool) (bool, hx.Sx) {
+	var cb bytes.Buffer
+	benchstat.FormatCSV(&cb, tables, norange)
+	cr := csv.NewReader(&cb)
+	cr.FieldsPerRecord = -1
+	recs, cerr := cr.ReadAll()
+	var csvLines []hx.Sx
+	for _, rec := range recs {
+		csvLines = append(csvLines, hx.SList(rec))
+	}
+	return cerr == nil, hx.List(csvLines)
+}
+
 // ---------- generators ----------
 
 var c17Units = []string{"ns/op", "MB/s", "B/op", "allocs/op", "x-MB/s", "widgets", "speed", "y-ns/op", "ns/GC", "z-B/op", "-MB/s", "MB/s-x"}
@@ -475,7 +517,11 @@ func c17Value(r *hx.Rng, base float64, style int) float64 {
 
 func c17Fmt(x float64) string { return strconv.FormatFloat(x, 'g', -1, 64) }
 
-func c17Collection(r *hx.Rng, big bool) c17Input {
+func c17Collection(r *hx.Rng, big bool) c17Input { return c17CollectionN(r, big, nil) }
+
+// c17CollectionN: names, when given, fixes the number and the names of the
+// configurations (histories); otherwise both are drawn as before.
+func c17CollectionN(r *hx.Rng, big bool, names0 []string) c17Input {
 	special := !big // no Inf among more than 20 rows: NaN sort keys make sort.SliceStable's result algorithm-specific
 	var in c17Input
 	in.Test = []string{"nil", "utest", "utest", "ttest", "ttest", "nodelta", "custom1", "custom2"}[r.Intn(8)]
@@ -502,6 +548,9 @@ func c17Collection(r *hx.Rng, big bool) c17Input {
 	confNames := []string{"old.txt", "new.txt", "third", "dir/fourth.txt"}
 	if r.Chance(0.06) && nconf >= 2 {
 		confNames[1] = confNames[0] // the same name twice
+	}
+	if names0 != nil {
+		nconf, confNames = len(names0), names0
 	}
 	nb := r.Range(1, 5)
 	if big {
@@ -870,13 +919,15 @@ func c17Threshold(r *hx.Rng) (c17Input, bool) {
 }
 
 func genC17(o *hx.Out, r *hx.Rng, tier string, replay string) error {
-	o.Rule = "collections of 1-4 configurations (same name twice allowed) built through AddConfig/AddFile/AddResults from generated benchmark text: 1-5 (or 6-24) benchmarks x 1-3 units from {ns/op, MB/s, B/op, allocs/op, x-MB/s, widgets, speed, y-ns/op, ns/GC, z-B/op, -MB/s, MB/s-x}, 1-25 runs, missing and repeated benchmarks, outliers, constant/zero/tied/negative samples, ignored and malformed lines, label changes; x {nil, UTest, TTest, NoDeltaTest, two custom tests} x alpha x SplitBy x Order (ByName, ByDelta, Reverse up to twice) x AddGeoMean; plus a sort stress stream (two configurations, 13-40 rows, rows sharing sample profiles and names repeated across packages so that keys tie, every Order) and a threshold stream (small integer samples under U/t-test with alpha on, one ulp around, and within 0.0004 of a row's unrounded p, or samples searched until p is within 0.0005 of alpha 0.05/0.01/0.1). non-trivial = at least one table; distinct by input"
+	o.Rule = "collections of 1-4 configurations (same name twice allowed) built through AddConfig/AddFile/AddResults from generated benchmark text: 1-5 (or 6-24) benchmarks x 1-3 units from {ns/op, MB/s, B/op, allocs/op, x-MB/s, widgets, speed, y-ns/op, ns/GC, z-B/op, -MB/s, MB/s-x}, 1-25 runs, missing and repeated benchmarks, outliers, constant/zero/tied/negative samples, ignored and malformed lines, label changes; x {nil, UTest, TTest, NoDeltaTest, two custom tests} x alpha x SplitBy x Order (ByName, ByDelta, Reverse up to twice) x AddGeoMean; plus a sort stress stream (two configurations, 13-40 rows, rows sharing sample profiles and names repeated across packages so that keys tie, every Order) and a threshold stream (small integer samples under U/t-test with alpha on, one ulp around, and within 0.0004 of a row's unrounded p, or samples searched until p is within 0.0005 of alpha 0.05/0.01/0.1) and a history stream on ONE Collection (1-4 stages, each: add 0-6 further configurations, Tables(), then FormatText/FormatCSV/FormatHTML of those tables in a random order; 2-6 configurations whose names mostly share a directory prefix such as runs/a.txt, runs/b.txt, runs/c.txt, sometimes a name added again later; every Tables() result judged against the records added so far, collection and tables observed again after formatting). non-trivial = at least one table; distinct by input"
 	n := 1500
 	nbig := 60
 	nsort, nthr := 40, 60
+	nhist := 220
 	if tier == "thorough" {
 		n, nbig = 12000, 600
 		nsort, nthr = 1500, 1500
+		nhist = 4000
 	}
 	// fixed small cases first
 	fixed := []c17Input{
@@ -926,5 +977,17 @@ func genC17(o *hx.Out, r *hx.Rng, tier string, replay string) error {
 		}
 	}
 	o.Extra["threshold_cases"] = found
+	// histories: one collection reporting several times (c17hist.go)
+	for _, in := range c17FixedHistories() {
+		in.AlphaS = c17Fmt(in.Alpha)
+		if err := c17HistOne(o, in); err != nil {
+			return err
+		}
+	}
+	for i := 0; i < nhist; i++ {
+		if err := c17HistOne(o, c17History(r.Split())); err != nil {
+			return err
+		}
+	}
 	return nil
 }
